@@ -21,8 +21,11 @@ def filter_text(txt):
         if m:
             key = m.group(2).strip()
             detail = lines[i + 1] if i + 1 < len(lines) else ''
-            pair = re.search(r'^(R-C01-2|R-C12-2|R-C16-5)/pairs/\d+$', key) and 'g_base_vec' in detail and 'extension_degree' in detail
-            if key in KEYS or pair:
+            is_pair = re.search(r'^(R-C01-2|R-C12-2|R-C16-5)/pairs/\d+$', key)
+            # the pair of the repaired defect, recognised by what it says (the pair number shifts when fills are added or removed, and
+            # another defect may sit at pair 6)
+            pair = is_pair and 'g_base_vec' in detail and 'extension_degree' in detail and 'modulo guard equalities' in detail
+            if (key in KEYS and not is_pair) or pair:
                 dropped += 1
                 i += 2
                 while i < len(lines) and lines[i].startswith('  at '):
